@@ -17,6 +17,7 @@
 package jitdec
 
 import (
+	"encoding/json"
 	"fmt"
 	"reflect"
 	"sort"
@@ -839,7 +840,16 @@ func (self *_Compiler) compilePtr(p *_Program, sp int, et reflect.Type) {
 	p.add(_OP_is_null)
 
 	/* dereference all the way down */
+	var seen map[reflect.Type]bool
 	for et.Kind() == reflect.Ptr {
+		/* a pointer type that only points to pointer types (`type P *P`) never reaches an element */
+		if seen[et] {
+			panic(&json.UnmarshalTypeError{Type: et})
+		}
+		if seen == nil {
+			seen = make(map[reflect.Type]bool)
+		}
+		seen[et] = true
 		if self.checkMarshaler(p, et, 0, true) {
 			/* an unmarshaler below at least one pointer level: the `null` test
 			 * of the outer pointer emitted above must still be pinned */
